@@ -27,10 +27,12 @@ EXHAUSTIVE = {"quick": True, "thorough": True}
 RULE = (
     "cases = (backend, history of 8-14 events built so that single events have many writes - replaceable and "
     "parameterized events superseding two older versions, deletions of several own events, events with 10+ indexable "
-    "tags, plain notes -, event index i, mutation ordinal k, action in {error, kill}); ALL (i, k, action) of every "
-    "generated history are enumerated (ordinals are learnt from a recording run). Non-trivial = a crash point at which "
-    "the dumps before and after event i differ and the failpoint really fired (for kill: the child died with SIGKILL). "
-    "Distinct = distinct (backend, history, i, k, action)."
+    "tags, plain notes -, window = one event or two events submitted back-to-back without waiting for the writer, mutation "
+    "ordinal k counted globally from the moment of arming across all transactions and connections, action in {error, "
+    "kill}); ALL (window, k, action) of every generated history are enumerated (ordinals are learnt from a recording run "
+    "of the same window), plus one run per history with six injected errors in ONE process. Non-trivial = a crash point "
+    "whose failpoint really fired (for kill: the child died with SIGKILL) and for which more than one clean state is "
+    "admissible. Distinct = distinct (backend, history, window, k, action)."
 )
 ASSUMPTIONS = [
     "kill granularity is 'between engine API calls': a crash inside mdb_txn_commit / SQLite's commit is the engine's contract",
@@ -38,17 +40,18 @@ ASSUMPTIONS = [
     "reference states are produced by the code under test itself in fault-free runs (atomicity, not functional correctness, is judged)",
 ]
 MIN_NONTRIVIAL = {"quick": 150, "thorough": 1500}
-REQUIRED_COUNTERS = ["points.error", "points.kill", "kills_observed", "errors_fired"]
+REQUIRED_COUNTERS = ["points.error", "points.kill", "points.multi-error", "kills_observed", "errors_fired"]
 SHARD_TIMEOUT = {"quick": 900, "thorough": 3400}
 
 
 def plan(tier, seed):
-    nh, parts = (1, 7) if tier == "quick" else (6, 8)
+    nh, parts, pairs_every = (1, 7, 4) if tier == "quick" else (6, 8, 1)
     out = []
     for b in ("sql", "lmdb"):
         for hi in range(nh):
             for p in range(parts):
-                out.append({"backend": b, "history_seed": seed * 7919 + hi, "part": p, "parts": parts})
+                out.append({"backend": b, "history_seed": seed * 7919 + hi, "part": p, "parts": parts, "pairs_every": pairs_every})
+            out.append({"backend": b, "history_seed": seed * 7919 + hi, "multi": True})
     return out
 
 
@@ -147,69 +150,115 @@ def spawn(spec):
     return rc, info, state, state_err, err[-500:]
 
 
+def windows_of(n, part, parts, pairs_every):
+    """(a, b) index ranges [a..b] submitted back-to-back after arming: every single event
+    and - for every pairs_every-th position - the pair (i-1, i)"""
+    out = []
+    for i in range(n):
+        if i % parts == part:
+            out.append((i, i))
+            if i >= 1 and i % pairs_every == 0:
+                out.append((i - 1, i))
+    return out
+
+
 def run_shard(spec):
     backend = spec["backend"]
     history = gen_history(spec["history_seed"])
     counters = {"points": {}}
     viols, nontrivial, inconclusive, samples = [], [], [], []
-    dumps, traces = clean_run(backend, history)
+    dumps, _ = clean_run(backend, history, record=False)
     counters["history_events"] = len(history)
-    counters["ordinals_total"] = sum(len(t) for t in traces)
     cov_ops = {}
-    for i, ev in enumerate(history):
-        if i % spec["parts"] != spec["part"]:
+    without = {}
+
+    def without_state(x):
+        if x not in without:
+            without[x] = clean_run(backend, history[:x] + history[x + 1:], record=False)[0][-1]
+        return without[x]
+
+    if spec.get("multi"):
+        # several injected errors in ONE process, then the rest of the history
+        r = random.Random(spec["history_seed"] + 17)
+        idx = sorted(r.sample(range(1, len(history)), min(6, len(history) - 1)))
+        multi = [[i, r.choice([0, 1, 2])] for i in idx]
+        rc, info, state, state_err, err = spawn({"backend": backend, "prefix": [], "event": None, "rest": history, "multi": multi, "ordinal": 0, "action": "error"})
+        counters["points"]["multi-error"] = len(multi)
+        rp = {"backend": backend, "history_seed": spec["history_seed"], "multi": multi}
+        if rc != 0 or info is None or state is None:
+            inconclusive.append("multi-fault child rc=%s: %s %s" % (rc, state_err, err[-200:]))
+        else:
+            fired = [i for i, f in info.get("fired_list", []) if f]
+            counters["errors_fired"] = counters.get("errors_fired", 0) + len(fired)
+            if info.get("blocked"):
+                viols.append({"key": "%s/multi-error/later-events-blocked" % backend, "msg": "[%s] after %d injected engine errors in one process later submissions do not complete: %s"
+                              % (backend, len(fired), info["blocked"]), "replay": rp})
+            else:
+                expect = clean_run(backend, [e for k, e in enumerate(history) if k not in fired], record=False)[0][-1]
+                nontrivial.append(h([backend, spec["history_seed"], "multi", multi]))
+                if state != expect:
+                    viols.append({"key": "%s/multi-error/later-events-not-applied-or-torn" % backend, "msg": "[%s] after injected engine errors at events %s the final store differs from the clean run without those events"
+                                  % (backend, fired), "replay": rp})
+        counters["violations_by_key"] = {v["key"]: 1 for v in viols}
+        return {"evaluations": len(multi), "nontrivial": nontrivial, "counters": counters, "coverage": {"backends": {backend: 1}, "modes": {"multi-error": 1}},
+                "violations": viols, "samples": [{"backend": backend, "multi": multi, "fired": info.get("fired_list") if info else None}], "inconclusive": inconclusive}
+
+    for a, b in windows_of(len(history), spec["part"], spec["parts"], spec.get("pairs_every", 3)):
+        evs = history[a:b + 1]
+        base = {"backend": backend, "prefix": history[:a], "event": evs[0], "events": evs}
+        rc, info, _, _, err = spawn(dict(base, record=True, ordinal=0, action="error", rest=[]))
+        if rc != 0 or not info or not info.get("trace"):
+            inconclusive.append("recording run of window (%d,%d) failed rc=%s: %s" % (a, b, rc, err[-200:]))
             continue
-        pre, post = dumps[i], dumps[i + 1]
-        without = None
-        K = len(traces[i])
-        if K == 0:
-            inconclusive.append("no mutation ordinals recorded for event %d (kind %d)" % (i, ev["kind"]))
-            continue
+        trace = info["trace"]
+        K = len(trace)
+        allowed_kill = set(dumps[a:b + 2])
         for k in range(K):
-            op = traces[i][k][2]
+            op = trace[k][2]
             cov_ops[op] = cov_ops.get(op, 0) + 1
             for action in ("error", "kill"):
                 counters["points"][action] = counters["points"].get(action, 0) + 1
-                base = {"backend": backend, "prefix": history[:i], "event": ev, "ordinal": k, "action": action,
-                        "rest": history[i + 1:] if action == "error" else []}
-                rc, info, state, state_err, err = spawn(base)
-                rp = {"backend": backend, "history_seed": spec["history_seed"], "i": i, "k": k, "action": action}
-                tag = "%s/%s/kind-%s/%s" % (backend, action, ref.kind_class(ev["kind"]) if ev["kind"] != 5 else "deletion", op)
+                rc, info, state, state_err, err = spawn(dict(base, ordinal=k, action=action, rest=history[b + 1:] if action == "error" else []))
+                rp = {"backend": backend, "history_seed": spec["history_seed"], "window": [a, b], "k": k, "action": action}
+                ev = evs[-1]
+                tag = "%s/%s/%s/kind-%s/%s" % (backend, action, "single" if a == b else "burst-of-2", ref.kind_class(ev["kind"]) if ev["kind"] != 5 else "deletion", op)
                 if state is None:
-                    viols.append({"key": backend + "/unreadable-after-" + action, "msg": "store cannot be reopened after %s at event %d ordinal %d: %s" % (action, i, k, state_err), "replay": rp})
+                    viols.append({"key": backend + "/unreadable-after-" + action, "msg": "store cannot be reopened after %s at window (%d,%d) ordinal %d: %s" % (action, a, b, k, state_err), "replay": rp})
                     continue
                 if action == "kill":
                     killed = rc == -9
                     if killed:
                         counters["kills_observed"] = counters.get("kills_observed", 0) + 1
                     elif rc != 0:
-                        inconclusive.append("kill child rc=%s at (%d,%d): %s" % (rc, i, k, err[-200:]))
+                        inconclusive.append("kill child rc=%s at (%d,%d,%d): %s" % (rc, a, b, k, err[-200:]))
                         continue
-                    if killed and pre != post:
-                        nontrivial.append(h([backend, spec["history_seed"], i, k, action]))
-                    if state not in (pre, post):
-                        viols.append({"key": tag + "/torn-state", "msg": "[%s] after SIGKILL at mutation %d (%s) of event %d (kind %d) the reopened store is neither the state before nor after the event"
-                                      % (backend, k, op, i, ev["kind"]), "replay": rp})
+                    else:
+                        counters["kill_points_not_reached"] = counters.get("kill_points_not_reached", 0) + 1
+                    if killed and len(allowed_kill) > 1:
+                        nontrivial.append(h([backend, spec["history_seed"], a, b, k, action]))
+                    if state not in allowed_kill:
+                        viols.append({"key": tag + "/torn-state", "msg": "[%s] after SIGKILL at mutation %d (%s) of events %d..%d (last kind %d) the reopened store equals none of the states between them"
+                                      % (backend, k, op, a, b, ev["kind"]), "replay": rp})
                 else:
                     if rc != 0 or info is None:
-                        inconclusive.append("error child rc=%s at (%d,%d): %s" % (rc, i, k, err[-200:]))
+                        inconclusive.append("error child rc=%s at (%d,%d,%d): %s" % (rc, a, b, k, err[-200:]))
                         continue
                     if info.get("fired"):
                         counters["errors_fired"] = counters.get("errors_fired", 0) + 1
-                        if pre != post:
-                            nontrivial.append(h([backend, spec["history_seed"], i, k, action]))
+                        nontrivial.append(h([backend, spec["history_seed"], a, b, k, action]))
+                    else:
+                        counters["error_points_not_reached"] = counters.get("error_points_not_reached", 0) + 1
                     if info.get("blocked"):
-                        viols.append({"key": tag + "/later-events-blocked", "msg": "[%s] after an injected engine error at mutation %d (%s) of event %d later submissions do not complete: %s"
-                                      % (backend, k, op, i, info["blocked"]), "replay": rp})
+                        viols.append({"key": tag + "/later-events-blocked", "msg": "[%s] after an injected engine error at mutation %d (%s) of events %d..%d later submissions do not complete: %s"
+                                      % (backend, k, op, a, b, info["blocked"]), "replay": rp})
                         continue
-                    if without is None:
-                        without = clean_run(backend, history[:i] + history[i + 1:], record=False)[0][-1]
-                    if state not in (without, dumps[-1]):
-                        viols.append({"key": tag + "/later-events-not-applied-or-torn", "msg": "[%s] injected engine error at mutation %d (%s) of event %d (kind %d): the final store equals neither the clean run without that event nor the clean run of the whole history (OK frames %s)"
-                                      % (backend, k, op, i, ev["kind"], info.get("oks")), "replay": rp})
+                    allowed = {dumps[-1]} | {without_state(x) for x in range(a, b + 1)}
+                    if state not in allowed:
+                        viols.append({"key": tag + "/later-events-not-applied-or-torn", "msg": "[%s] injected engine error at mutation %d (%s) of events %d..%d (last kind %d): the final store equals neither the clean run of the whole history nor the clean run without one of those events (OK frames %s)"
+                                      % (backend, k, op, a, b, ev["kind"], info.get("oks")), "replay": rp})
                 if len(samples) < 2:
-                    samples.append({"backend": backend, "event_index": i, "kind": ev["kind"], "ordinal": k, "op": op, "action": action, "child_rc": rc,
-                                    "state": "pre" if state == pre else ("post" if state == post else "other")})
+                    samples.append({"backend": backend, "window": [a, b], "kinds": [e["kind"] for e in evs], "ordinal": k, "op": op, "action": action, "child_rc": rc,
+                                    "ordinals_in_window": K})
     seen, out = {}, []
     for v in viols:
         seen[v["key"]] = seen.get(v["key"], 0) + 1
@@ -217,24 +266,16 @@ def run_shard(spec):
             out.append(v)
     counters["violations_by_key"] = seen
     return {"evaluations": sum(counters["points"].values()), "nontrivial": sorted(set(nontrivial)), "counters": counters,
-            "coverage": {"backends": {backend: 1}, "mutation_ops": cov_ops, "ordinals_per_event": {str(i): len(t) for i, t in enumerate(traces)} if spec["part"] == 0 else {}},
-            "violations": out, "samples": samples, "inconclusive": inconclusive[:5]}
+            "coverage": {"backends": {backend: 1}, "mutation_ops": cov_ops}, "violations": out, "samples": samples, "inconclusive": inconclusive[:5]}
 
 
 def replay(rp, spec):
-    history = gen_history(rp["history_seed"])
     backend = rp["backend"]
-    dumps, traces = clean_run(backend, history)
-    i, k, action = rp["i"], rp["k"], rp["action"]
-    ev = history[i]
-    rc, info, state, state_err, err = spawn({"backend": backend, "prefix": history[:i], "event": ev, "ordinal": k, "action": action,
-                                             "rest": history[i + 1:] if action == "error" else []})
-    viols = []
-    if action == "kill":
-        if state not in (dumps[i], dumps[i + 1]):
-            viols.append({"key": "replay/torn-state", "msg": "torn state reproduced (child rc %s)" % rc, "replay": rp})
-    else:
-        without = clean_run(backend, history[:i] + history[i + 1:], record=False)[0][-1]
-        if (info or {}).get("blocked") or state not in (without, dumps[-1]):
-            viols.append({"key": "replay/error-case", "msg": "error case reproduced: %s" % (info,), "replay": rp})
-    return {"evaluations": 1, "nontrivial": [], "counters": {}, "violations": viols, "samples": [], "inconclusive": []}
+    if rp.get("multi"):
+        res = run_shard({"backend": backend, "history_seed": rp["history_seed"], "multi": True})
+        return res
+    a, b = rp["window"]
+    n = len(gen_history(rp["history_seed"]))
+    # re-run exactly that window (all its ordinals) through the normal path
+    res = run_shard({"backend": backend, "history_seed": rp["history_seed"], "part": b, "parts": n, "pairs_every": 1 if a != b else 10 ** 6})
+    return res
